@@ -5,8 +5,22 @@ use rotala::input::penelope::{PenelopeQuote, PenelopeQuoteByDate};
 use serde_json::{json, Value};
 use std::collections::HashMap;
 
+/// the `sp` token carries the decimal spelling (sp % 3) and the two fields that do not influence matching
+/// (sp / 3: 0 = plain, 1 = reduce_only, 2 = a client order id, 3 = both); constructors only build plain orders
+pub fn extras(sp: u64) -> (bool, Option<&'static str>) {
+    match sp / 3 {
+        1 => (true, None),
+        2 => (false, Some("0x1234567890abcdef1234567890abcdef")),
+        3 => (true, Some("0xfeedfacefeedfacefeedfacefeedface")),
+        _ => (false, None),
+    }
+}
+/// annotation token for the model: empty for a plain order
+pub fn extras_tok(sp: u64) -> String {
+    if sp / 3 == 0 { String::new() } else { format!(" X{}", sp / 3) }
+}
 fn spell(x: f64, sp: u64) -> String {
-    match sp {
+    match sp % 3 {
         1 => format!("{:.4}", x),
         2 => format!("{:e}", x),
         _ => x.to_string(),
@@ -20,11 +34,15 @@ pub fn order_json(asset: u64, is_buy: bool, px: f64, sz: f64, kind: &str, sp: u6
         "L" => json!({"Limit": {"tif": match parts[1] { "ioc" => "Ioc", "gtc" => "Gtc", _ => "Alo" }}}),
         _ => json!({"Trigger": {"trigger_px": pf(parts[1]), "is_market": parts[2] == "1", "tpsl": if parts[3] == "tp" { "Tp" } else { "Sl" }}}),
     };
-    json!({"asset": asset, "is_buy": is_buy, "limit_px": spell(px, sp), "sz": spell(sz, sp), "reduce_only": false, "cloid": null, "order_type": typ})
+    let (ro, cl) = extras(sp);
+    json!({"asset": asset, "is_buy": is_buy, "limit_px": spell(px, sp), "sz": spell(sz, sp), "reduce_only": ro, "cloid": cl, "order_type": typ})
 }
 
 /// the public constructor that produces this order, if there is one
 pub fn via_ctor(asset: u64, is_buy: bool, px: f64, sz: f64, kind: &str, sp: u64) -> Option<Order> {
+    if sp / 3 != 0 {
+        return None;
+    }
     let (p, s) = (spell(px, sp), spell(sz, sp));
     let parts: Vec<&str> = kind.split(':').collect();
     match (parts[0], parts.get(1).copied()) {
@@ -147,7 +165,7 @@ pub fn gen(seed: u64, cases: usize, flavour: &str, path: &str) {
                             format!("T:{}:{}:{}", fb(tpx), if is_market { 1 } else { 0 }, if tp { "tp" } else { "sl" })
                         }
                     };
-                    let sp = g.rng.below(3);
+                    let sp = g.rng.below(3) + if g.rng.chance(1, 5) { 3 * (1 + g.rng.below(3)) } else { 0 };
                     let via = g.rng.below(2);
                     g.stats.bump(&format!("insert_{}_{}", &kind[..1], if is_buy { "buy" } else { "sell" }));
                     g.line(&format!("I {} {} {} {} {} {} {}", asset, if is_buy { 1 } else { 0 }, fb(px), fb(sz), kind, sp, via));
@@ -215,7 +233,7 @@ pub fn run(ops: &str, annot: &str, imp: &str) {
                 };
                 batch.push(serde_json::to_value(&o).unwrap());
                 ex.insert_order(o);
-                out.emit(&toks[..6].join(" "), &resp);
+                out.emit(&format!("{}{}", toks[..6].join(" "), extras_tok(sp)), &resp);
             }
             "D" => {
                 ex.delete_order(pu(toks[1]), pu(toks[2]));
